@@ -109,6 +109,12 @@ func (rc *RunCtx) Sim(o SimOpts, root func()) *verifsim.Sim {
 		cfg.Rand = verifsim.NewTape(uint64(rc.G.n(1<<30)), 1<<12)
 	}
 	s := verifsim.Run(rc.T, cfg, root)
+	if n := verifsim.LeakedOpenFileSlots; n > 0 && s.Panic == nil {
+		// every build of the bubble has returned, yet slots of the open-file limiter (a
+		// process-wide resource: 32 leaks and every later build blocks for ever) are taken
+		verifsim.LeakedOpenFileSlots = 0
+		panic(&Violation{Class: "open-file-slot-leaked", Key: "limiter", Detail: fmt.Sprintf("%d slot(s) of the process-wide open-file limiter were still taken after all builds of the run had returned", n)})
+	}
 	st := rc.Stats
 	st.Steps += s.Steps
 	st.ChoicePoints += s.ChoicePoints
